@@ -241,7 +241,7 @@ impl RabinKarp {
         ensures
             (r is Some) == occurs(self.patterns, id, haystack@, at as int),
             r is Some ==> r->Some_0 == (Match { pattern: id, span: Span { start: at, end: (at + pat_bytes(self.patterns, id).len()) as usize } }),
-//@@ before /if pat\.is_prefix/
+//@@ after /let pat = [^;]*;/
         proof {
             let p = pat_bytes(self.patterns, id);
             let tail = haystack@.subrange(at as int, haystack@.len() as int);
